@@ -2,6 +2,8 @@
 from __future__ import annotations
 
 import asyncio
+
+import pydantic
 from typing import Any, Dict, List
 
 from hypothesis import strategies as st
@@ -81,6 +83,21 @@ def parts(tier: str) -> List[Part]:
     return [Part("histories", "given", shards=8, examples=800, strategy=cases, soft_deadline_s=120)]
 
 
+_REQ_IDS = [0]
+
+
+def _next_req_id() -> str:
+    _REQ_IDS[0] += 1
+    return f"req-{_REQ_IDS[0]}"
+
+
+class Req(pydantic.BaseModel):
+    """a request object with an idempotency key the caller usually leaves to the default factory."""
+
+    item: str
+    request_id: str = pydantic.Field(default_factory=_next_req_id)
+
+
 class MyBase(BaseException):
     pass
 
@@ -129,7 +146,9 @@ def model(c: Dict[str, Any]) -> Any:
 def run_case(c: Dict[str, Any]) -> Outcome:
     out = Outcome()
     out.clauses_checked = ["C11.a", "C11.b", "C11.c", "C11.d"]
-    ARGS, KW = [1, "x", [2.5, None]], {"z": {"k": 1}}
+    # `req` is validated into a model whose un-sent field gets a generated default: every attempt must see the SAME value
+    ARGS, KW = [1, "x", [2.5, None]], {"z": {"k": 1}, "req": {"item": "x"}}
+    reqs: Dict[str, List[Any]] = {}
     calls = [c]
     if c.get("second"):
         calls.append({**c["second"], "dflt_count": c["dflt_count"], "dflt_label": c["dflt_label"], "nror": c["nror"]})
@@ -163,7 +182,8 @@ def run_case(c: Dict[str, Any]) -> Outcome:
         tokens: List[int] = []
 
         async def t(a: Any, b_: Any = None, c_: Any = None, z: Any = None, ctx: Context = TaskiqDepends(),
-                    tok: str = TaskiqDepends(fresh_token)) -> Any:
+                    tok: str = TaskiqDepends(fresh_token), req: Req = None) -> Any:  # type: ignore[assignment]
+            reqs.setdefault(ctx.message.task_id, []).append(req.model_dump() if isinstance(req, Req) else repr(req))
             if tok != f"tok-{len(tokens)}":
                 stale.append(tok)
             tid = ctx.message.task_id
@@ -232,12 +252,17 @@ def run_case(c: Dict[str, Any]) -> Outcome:
             out.add("C11.c", f"{who}saves (kind, after execution #) {[[s[0], s[1]] for s in my_saves]} != reference model {ms} (no_result_on_retry={cl['nror']})")
         if len(my_msgs) != execs:
             out.add("C11.d", f"{who}{len(my_msgs)} deliveries but {execs} executions")
+        mine_req = reqs.get(tid, [])
+        if any(r != mine_req[0] for r in mine_req[1:]) or (mine_req and (not isinstance(mine_req[0], dict) or mine_req[0].get("item") != "x")):
+            out.add("C11.b", f"{who}the model-typed argument sent as {{'item': 'x'}} was received as {short(mine_req, 200)} by the successive attempts (must be one and the same value)")
         for tid2, a, k in seen:
             if tid2 == tid and (a != [1, "x", [2.5, None]] or k != {"z": {"k": 1}}):
                 out.add("C11.b", f"{who}attempt received args {short((a, k), 120)}")
                 break
         for k_, (m, tm) in enumerate(my_msgs):
-            if list(tm.args) != ARGS or dict(tm.kwargs) != KW:
+            wire_kw = dict(tm.kwargs)
+            wire_req = wire_kw.pop("req", None)
+            if list(tm.args) != ARGS or wire_kw != {"z": {"k": 1}} or not isinstance(wire_req, dict) or wire_req.get("item") != "x":
                 out.add("C11.b", f"{who}attempt {k_ + 1} was sent with args {short((tm.args, tm.kwargs), 120)}, the call had {short((ARGS, KW), 80)}")
                 break
             for key, val in cl["user"].items():
